@@ -24,11 +24,11 @@ EXPLANATION = (
     "esi, edi) and odd halves (five stack slots) interleave to ref_round of the previous cut. The three RISC-V ASSEMBLY "
     "permutations (RV64I; RV32I and RV32E in the bit-sliced layout, RV32E keeping the odd halves in the state memory) and "
     "the AArch64 ASSEMBLY permutation (tools/lift_arm64.py; the upper bits of the argument register are arbitrary, as AAPCS64 "
-    "allows) and the ARMv6 / ARMv7-M ASSEMBLY permutations (tools/lift_arm32.py; bit-sliced halves in r2-r6 / r7-r11) are lifted and "
+    "allows) and the ARMv6 / ARMv7-M / ARMv6-M ASSEMBLY permutations (tools/lift_arm32.py; bit-sliced halves in low / high registers) are lifted and "
     "proved the same way."
 )
 ASSUMPTIONS = [
-    "x86-64 assembly: verified through tools/lift_x86_64.py (trusted: its instruction table for movq/xorq/andq/notq/rorq/pushq/popq/cmpq+jge/jmp/ret and the leaq-movslq-addq-jmp* jump-table idiom; System V argument registers, first_round arriving zero-extended in rsi; gas assembling the text it is given; only the Linux/ELF preprocessor variant of prologue/epilogue). i386 assembly: through tools/lift_i386.py (trusted: its table for movl/xorl/andl/notl/rorl/pushl/popl/cmpl+je/jmp/ret, static %esp tracking, cdecl). RISC-V assembly: through tools/lift_riscv.py (trusted: its table for ld/lw/sd/sw/not/li/xor/or/and/xori/slli/srli/addi sp/beq/j/ret, static sp tracking, the psABI). AArch64: tools/lift_arm64.py (ldr/ldp/str/stp/mov/mvn/eor/bic with ror-shifted operand/ror/cmp+beq/b/ret, AAPCS64). ARMv6 / ARMv7-M: tools/lift_arm32.py (push/pop/ldr/str/mov/mvn/eor/bic with ror-shifted operand/cmp+beq/b, flag-setting forms as plain forms, AAPCS32). The other four assembly backends (ARMv6-M, AVR5, m68k, Xtensa) are not covered",
+    "x86-64 assembly: verified through tools/lift_x86_64.py (trusted: its instruction table for movq/xorq/andq/notq/rorq/pushq/popq/cmpq+jge/jmp/ret and the leaq-movslq-addq-jmp* jump-table idiom; System V argument registers, first_round arriving zero-extended in rsi; gas assembling the text it is given; only the Linux/ELF preprocessor variant of prologue/epilogue). i386 assembly: through tools/lift_i386.py (trusted: its table for movl/xorl/andl/notl/rorl/pushl/popl/cmpl+je/jmp/ret, static %esp tracking, cdecl). RISC-V assembly: through tools/lift_riscv.py (trusted: its table for ld/lw/sd/sw/not/li/xor/or/and/xori/slli/srli/addi sp/beq/j/ret, static sp tracking, the psABI). AArch64: tools/lift_arm64.py (ldr/ldp/str/stp/mov/mvn/eor/bic with ror-shifted operand/ror/cmp+beq/b/ret, AAPCS64). ARMv6 / ARMv7-M / ARMv6-M: tools/lift_arm32.py (push/pop/ldr/str incl. sp-relative/mov/mvn/eor/and/bic with ror-shifted operand/rors by register/lsls/cmp+beq,bhi/b/bl as far branch/the adr-ldr-add-mov pc jump-table idiom, flag-setting forms as plain forms, AAPCS32). The other three assembly backends (AVR5, m68k, Xtensa) are not covered",
     "byte operations of the 32-bit bit-sliced backend: init, copy (and, thorough tier, add and overwrite) with symbolic offset/size; overwrite_with_zeroes and the extract family by ENUMERATION of constant (offset, size) pairs - all 861 pairs in the thorough tier, a seed-rotated sample of ~30 in the quick tier - because with symbolic offsets the extract family exhausts the solver and ascon_overwrite_with_zeroes hits the CBMC 6.11 union anomaly (state->S[i] = 0 followed by a read through W[] is reported non-zero for offset 12, size 19, although the same pair passes as constants and natively); add/overwrite of this backend are not in the quick tier",
     "start rounds above 12 are outside the contract (the 32-bit backend forms the pointer RC + 2*first_round, which is only defined up to 12)",
 ]
@@ -112,12 +112,13 @@ def arm64_groups(props=("C08",), prefix="c08"):
 
 
 def arm32_groups(props=("C08",), prefix="c08"):
-    """ARMv6 (ARM mode) and ARMv7-M (Thumb-2) assembly permutations (bit-sliced 32-bit layout), lifted by tools/lift_arm32.py."""
+    """ARMv6 (ARM mode), ARMv7-M (Thumb-2) and ARMv6-M (Thumb-1, jump table, high registers) assembly permutations (bit-sliced 32-bit layout), lifted by tools/lift_arm32.py."""
     gs = []
-    for v in ("armv6", "armv7m"):
+    for v in ("armv6", "armv7m", "armv6m"):
         sig = ["--fn=ascon_permute:void:ascon_state_t * state,uint8_t first_round", "--arch=" + v]
+        gh = "ghost_asm_armv6m.h" if v == "armv6m" else "ghost_asm_arm32.h"
         gs.append(Group("%s.permute.%s_asm" % (prefix, v), props, "harness/h_permute_asm.c", "h_permute_asm", [], cfg="C32",
-                        enforce="ascon_permute", defs=["VERIF_ANY_FIRST_ROUND", 'VERIF_GHOST_HEADER="ghost_asm_arm32.h"'],
+                        enforce="ascon_permute", defs=["VERIF_ANY_FIRST_ROUND", 'VERIF_GHOST_HEADER="%s"' % gh],
                         contracts=["contracts/c_permute_enforce.h"], lift=("src/core/ascon-asm-%s.S" % v, sig), timeout=1800,
                         functions=["ascon_permute (%s assembly, lifted)" % v], expect_classes=["postcondition", "assigns", "assertion"],
                         note="cut points at the 13 round labels; push/pop on a statically tracked frame; pop {..., pc} is the return"))
